@@ -118,12 +118,20 @@ type runCase struct {
 	onFinish func(j *simrun.Job)
 	yield    func()
 	// hooks of the interruption / fault runs
+	persist   string // violation key to report if the process dies
 	seen      int
 	intervene func() core.MetadataState
 	finish    func(j *simrun.Job) bool
 }
 
-func (rc *runCase) logf(f string, a ...any) { rc.history = append(rc.history, fmt.Sprintf(f, a...)) }
+func (rc *runCase) logf(f string, a ...any) {
+	rc.history = append(rc.history, fmt.Sprintf(f, a...))
+	if rc.persist != "" {
+		// martian may end the process (util.Suicide): keep the history of
+		// the case in flight where the driver finds it
+		stats.Inflight(rc.persist, []byte(rc.describe()))
+	}
+}
 
 func (rc *runCase) describe() string {
 	var b strings.Builder
